@@ -582,3 +582,11 @@ Theorem C05_rule_step : forall i r final cls cfs args h,
     forall s, loaded s (RulesSem.half_bytes h) -> RuleStep.ostrong (run_n 1 s) (step ins 2 s).
 Proof. exact RuleStep.rule_step. Qed.
 Print Assumptions C05_rule_step.
+
+(* ---- the model is a FUNCTION of the program and the options, and so is the code it models: the effect summary regenerated from asm.py
+   passes summary_ok (no module-level object written by anything reachable from assemble(), no mutable default, no set iteration order
+   consumed; Proofs/Effects.v noninterference) -- a memo table or cache that outlives a call makes a pure model unfaithful *)
+From BB Require Gen.Effects Proofs.Effects Proofs.EffectsOk.
+Theorem C05_assemble_is_a_function_of_its_inputs : Proofs.Effects.summary_ok Gen.Effects.summary = true.
+Proof. exact Proofs.EffectsOk.summary_ok_holds. Qed.
+Print Assumptions C05_assemble_is_a_function_of_its_inputs.
